@@ -303,6 +303,31 @@ func genDbcSweep(g *G, k int) *gDbc {
 		}
 		d.msgs = append(d.msgs, m)
 	}
+	// description carry-over: an enum signal whose every raw value is described, followed by 1-bit signals with no
+	// description, with a description for one of the two values only, and for both -- whatever the frame, the first
+	// signal shows a description and the second must show none
+	{
+		m := &gMsg{name: "Flags", size: 2, sender: "NodeS0", id: 0x7f0}
+		pos := func(i int) int { // i-th bit of the message in this program's byte order
+			if be {
+				return BePos(7, i)
+			}
+			return i
+		}
+		gear := mk("Gear", pos(0), 3, 0)
+		gear.factor, gear.offset, gear.min, gear.max, gear.signed = "1", "0", "0", "0", false
+		for v := 0; v < 8; v++ {
+			gear.vds = append(gear.vds, [2]string{fmt.Sprint(v), fmt.Sprintf("Gear%d", v)})
+		}
+		m.sigs = append(m.sigs, gear)
+		for i, vd := range [][][2]string{nil, {{"1", "OnlyOne"}}, {{"0", "Off"}, {"1", "On"}}, nil} {
+			f := mk(fmt.Sprintf("Flag%d", i), pos(3+i), 1, 0)
+			f.factor, f.offset, f.min, f.max, f.signed = "1", "0", "0", "0", false
+			f.vds = vd
+			m.sigs = append(m.sigs, f)
+		}
+		d.msgs = append(d.msgs, m)
+	}
 	d.render(g, false)
 	return d
 }
